@@ -38,12 +38,16 @@ def _segments(rng, ploidy, male_ref, female, pre, par, has_cn):
     if par and has_cn:
         px, py = CN.PAR[par]["X"], CN.PAR[par]["Y"]
         regs += [(pre + "X", px[0][0] + 100_000), (pre + "Y", py[0][0] + 100_000)]
+        # segments flush with the PAR: the first starts exactly at PAR1's first base, the last ends exactly at PAR2's end (half-open: still inside)
+        regs += [(pre + "X", px[0][0]), (pre + "Y", py[0][0]), (pre + "X", -px[1][1]), (pre + "Y", -py[1][1])]
     xl, yl = pre + "X", pre + "Y"
     cols = {k: [] for k in ("chromosome", "start", "end", "gene", "log2", "probes", "weight", "cn")}
     for c, base in regs:
         pos = base
-        for _ in range(int(rng.integers(1, 5))):
+        for _ in range(int(rng.integers(1, 5)) if base >= 0 else 1):
             ln = int(rng.integers(1000, 80_000))
+            if base < 0:
+                pos = -base - ln          # a single segment ending exactly at the given coordinate
             cls = CN.region_class(c, pos, pos + ln, par if has_cn else None, xl, yl)
             x = CN.expect_copies(cls, ploidy, female)
             r = CN.ref_copies_pure(c, ploidy, male_ref)
